@@ -14,13 +14,15 @@ const A1: u32 = 100;
 const A2: u32 = 101;
 
 fn body(m: u32, two_actions: bool) {
-    body_x(m, two_actions, false)
+    body_x(m, two_actions, false, 1)
 }
 
 /// `stop_early`: the first action's reducer is parked on a gate, the second action is queued, and
 /// stop() is called before the gate is opened — it can only return through its timeout; the
 /// verdicts must be honoured for the backlog all the same
-fn body_x(m: u32, two_actions: bool, stop_early: bool) {
+/// `subs`: 1 one subscriber; 0 nobody ever subscribes (the store is observed through its
+/// middlewares only); 2 the only subscriber has left again before the first action
+fn body_x(m: u32, two_actions: bool, stop_early: bool, subs: u32) {
     // data choices, recorded for the oracle: code = action_index * 100 + mw * 3 + hook
     let mut tables: Vec<Vec<[Verdict; 3]>> = vec![]; // [action][mw][hook]
     let nact = if two_actions { 2 } else { 1 };
@@ -58,7 +60,10 @@ fn body_x(m: u32, two_actions: bool, stop_early: bool) {
         }) as Arc<dyn Middleware<St, Act> + Send + Sync>);
     }
     let store = build_store(cfg);
-    let _sub = add_subscriber(&store, Arc::new(ScriptSub::new(1)), 1);
+    let _sub = if subs > 0 { Some(add_subscriber(&store, Arc::new(ScriptSub::new(1)), 1)) } else { None };
+    if subs == 2 {
+        unsubscribe(&**_sub.as_ref().unwrap(), 1);
+    }
     let mask = if keep == 1 { 0b11 } else { 0 };
     dispatch(&store, Act::new(A1).keep(mask).eff(0, EFF_TASK).eff(1, EFF_TASK));
     if two_actions {
@@ -81,6 +86,11 @@ fn verdict(r: &ExecResult, ai: usize, mw: u32, hook: usize) -> Verdict {
 const HOOK_KIND: [&str; 3] = ["mw_before_reduce", "mw_before_effect", "mw_before_dispatch"];
 
 pub fn check(r: &ExecResult, m: u32, two_actions: bool) -> Vec<Finding> {
+    check_x(r, m, two_actions, 1)
+}
+
+pub fn check_x(r: &ExecResult, m: u32, two_actions: bool, subs: u32) -> Vec<Finding> {
+    let n_subs = if subs == 1 { 1 } else { 0 };
     let mut f = sanity(r);
     let keep = notes(r, "keep").next().map(|n| n.1).unwrap_or(0) == 1;
     let remover = notes(r, "remover").next().map(|n| n.1 as u32).unwrap_or(m);
@@ -192,8 +202,8 @@ pub fn check(r: &ExecResult, m: u32, two_actions: bool) -> Vec<Finding> {
             if suppressed && !notified.is_empty() {
                 f.push(fnd("mw-done-but-notified", format!("action {}: before_dispatch answered DoneAction but the subscriber was notified", aid)));
             }
-            if !suppressed && (notified.len() != 1 || notified[0].st != &post) {
-                f.push(fnd("mw-notify", format!("action {}: expected exactly one notification with the new state, got {}", aid, notified.len())));
+            if !suppressed && (notified.len() != n_subs || notified.iter().any(|n| n.st != &post)) {
+                f.push(fnd("mw-notify", format!("action {}: expected exactly {} notification(s) with the new state, got {}", aid, n_subs, notified.len())));
             }
         }
         pre = post;
@@ -240,6 +250,19 @@ pub fn scenarios(tier: Tier) -> Vec<Scenario> {
             add(2, true, 1);
         }
     }
+    // the hooks do not depend on anybody being subscribed
+    for subs in [0u32, 2] {
+        for (m, two, b) in if tier == Tier::Quick { vec![(1u32, false, 1u32), (1, true, 0)] } else { vec![(1, false, 3), (2, false, 1), (1, true, 1)] } {
+            v.push(Scenario {
+                name: format!("C12/{}/m{}{}", if subs == 0 { "nosub" } else { "sub-left" }, m, if two { "x2" } else { "" }),
+                params: format!("middlewares={} actions={} subscribers: {}", m, if two { 2 } else { 1 }, if subs == 0 { "none" } else { "one, unsubscribed before the first action" }),
+                opts: verif_rt::RunOpts { elide: vec![ELIDE_RED, ELIDE_MW], ..Default::default() },
+                bound: b,
+                body: Arc::new(move || body_x(m, two, false, subs)),
+                check: Arc::new(move |r| check_x(r, m, two, subs)),
+            });
+        }
+    }
     // stop() returning through its timeout must not change what the verdicts mean for the backlog
     for (m, b) in if tier == Tier::Quick { vec![(1u32, 0u32)] } else { vec![(1, 1), (2, 0)] } {
         v.push(Scenario {
@@ -247,7 +270,7 @@ pub fn scenarios(tier: Tier) -> Vec<Scenario> {
             params: format!("middlewares={} actions=2, reducer parked, stop() times out, then the backlog is processed", m),
             opts: verif_rt::RunOpts { elide: vec![ELIDE_RED, ELIDE_MW], ..Default::default() },
             bound: b,
-            body: Arc::new(move || body_x(m, true, true)),
+            body: Arc::new(move || body_x(m, true, true, 1)),
             check: Arc::new(move |r| {
                 let mut f = check(r, m, true);
                 // the timeout is the scenario's doing (the harness parks the reducer), not a finding;
